@@ -197,6 +197,14 @@ func buildUniverse(t *kernel.Tape) (u *universe) {
 		u.devs = append(u.devs, d)
 	}
 
+	u.materialise()
+
+	return u
+}
+
+// materialise builds fresh profile and device records from the specs, as a
+// synchronisation delivers them.
+func (u *universe) materialise() {
 	for _, p := range u.profs {
 		var acc access.Profile = access.EmptyProfile{}
 		if p.access != nil {
@@ -241,8 +249,6 @@ func buildUniverse(t *kernel.Tape) (u *universe) {
 			d.prof.rec.DeviceIDs = append(d.prof.rec.DeviceIDs, d.id)
 		}
 	}
-
-	return u
 }
 
 func (u *universe) dev(id string) *devSpec {
@@ -730,6 +736,45 @@ func run(s *kernel.Sim, prop, cfg string) {
 				// Globally blocked names stay blocked for everybody.
 				continue
 			}
+		}
+
+		if t.Chance(1, 8, "backend-change") {
+			// The backend changes and the database synchronises: a profile is
+			// deleted or restored, a device leaves or rejoins its profile or
+			// gets other authentication settings.
+			switch t.Choose(3, "change-kind") {
+			case 0:
+				p := kernel.Pick(t, u.profs, "changed-profile")
+				p.deleted = !p.deleted
+				s.Logf("backend: %s deleted=%v", p.id, p.deleted)
+			case 1:
+				d := kernel.Pick(t, u.devs, "changed-device")
+				d.attached = !d.attached
+				s.Logf("backend: %s attached=%v", d.id, d.attached)
+			default:
+				d := kernel.Pick(t, u.devs, "changed-device")
+				if !d.auto {
+					d.authOn, d.dohOnly, d.password = false, false, ""
+					switch t.Choose(5, "auth") {
+					case 1:
+						d.authOn, d.password = true, "right"
+					case 2:
+						d.authOn, d.dohOnly, d.password = true, true, "right"
+					case 3:
+						d.authOn = true
+					case 4:
+						d.authOn, d.dohOnly = true, true
+					}
+					s.Logf("backend: %s auth=%v doh-only=%v password=%q", d.id, d.authOn, d.dohOnly, d.password)
+				}
+			}
+			u.materialise()
+			if rerr := db.Refresh(context.Background()); rerr != nil {
+				s.Failf(prop+"/sync", "profile synchronisation failed", "%v", rerr)
+
+				return
+			}
+			s.Probe("backend-changed-and-synchronised")
 		}
 
 		*sn = seen{upDev: map[string]string{}}
